@@ -1025,6 +1025,92 @@ pub fn run(args: &Args) -> i32 {
             }
         }
     }
+    // ---- (d) handshakes over a transport with back-pressure; data followed by an abrupt end
+    {
+        let rt = tokio::runtime::Builder::new_current_thread().enable_all().start_paused(true).build().unwrap();
+        for kind in [Kind::Rustls, Kind::Openssl] {
+            let k = format!("{:?}", kind).to_lowercase();
+            // the server's flight does not fit into the transport at once
+            for hcap in [4096usize, 700, 256, 64] {
+                payload_runs += 1;
+                let _g = rt.enter();
+                let acc = Acceptors::new(&pki, Duration::from_secs(5));
+                let mut pair = Pair::new(&acc, kind, &pki, false);
+                pair.ctl.set_capacity(0, hcap);
+                pair.ctl.set_capacity(1, hcap);
+                let mut client_done = false;
+                for _ in 0..2000 {
+                    pair.pump();
+                    if pair.sres.is_some() {
+                        break;
+                    }
+                    if let Some(Ok(_)) = &pair.cres {
+                        // the client has finished its handshake and goes on reading (a client that
+                        // stopped reading would block the server's session tickets in so small a
+                        // transport, which is its own fault, not the acceptor's)
+                        client_done = true;
+                        let mut c = pair.cres.take().unwrap().unwrap();
+                        pair.client = Some(Box::pin(async move {
+                            let mut b = [0u8; 16];
+                            let _ = c.read(&mut b).await;
+                            Ok(c)
+                        }));
+                        pair.cflag.0.store(true, Ordering::SeqCst);
+                        continue;
+                    }
+                    if pair.ctl.deliver_all(0) + pair.ctl.deliver_all(1) == 0 && !pair.sflag.0.load(Ordering::SeqCst) && !pair.cflag.0.load(Ordering::SeqCst) {
+                        break;
+                    }
+                }
+                let ok = client_done && matches!(&pair.sres, Some((Res::Ok, Some(_))));
+                if !ok {
+                    let sig = format!("C18:handshake-fails-over-a-transport-with-back-pressure:{k}");
+                    bag.add(&sig.clone(), || Violation { signature: sig.clone(), summary: format!("a well-behaved client over a transport that takes at most {hcap} unread bytes per direction (every byte is delivered promptly, no time passes): server side {:?}, client finished its handshake: {client_done}", pair.sres.as_ref().map(|r| r.0.clone())), replay: json!({"part": "payload", "kind": k, "handshake_capacity": hcap}) });
+                }
+            }
+            // the client writes, its bytes arrive, then the transport ends without a TLS close:
+            // what arrived is read before the end / error is reported
+            for size in [1usize, 100, 16384, 40000] {
+                payload_runs += 1;
+                let _g = rt.enter();
+                let acc = Acceptors::new(&pki, Duration::from_secs(5));
+                let mut pair = Pair::new(&acc, kind, &pki, false);
+                for _ in 0..50 {
+                    pair.pump();
+                    if pair.sres.is_some() && pair.cres.is_some() {
+                        break;
+                    }
+                    pair.ctl.deliver_all(0);
+                    pair.ctl.deliver_all(1);
+                }
+                if let (Some((Res::Ok, Some(mut srv))), Some(Ok(mut cli))) = (pair.sres.take(), pair.cres.take()) {
+                    let payload: Vec<u8> = (0..size).map(|i| (i as u32).wrapping_mul(2654435761).to_le_bytes()[2]).collect();
+                    let p2 = payload.clone();
+                    let wrote = now_or_panic(async {
+                        cli.write_all(&p2).await?;
+                        cli.flush().await
+                    });
+                    pair.ctl.deliver_all(0);
+                    pair.ctl.close(0);
+                    let mut got = vec![];
+                    let end = now_or_panic(async {
+                        let mut buf = vec![0u8; 65536];
+                        loop {
+                            match srv.read(&mut buf).await {
+                                Ok(0) => break "eof".to_string(),
+                                Ok(n) => got.extend_from_slice(&buf[..n]),
+                                Err(e) => break format!("{:?}", e.kind()),
+                            }
+                        }
+                    });
+                    if wrote.is_err() || got != payload {
+                        let sig = format!("C18:data-not-intact:{k}:bytes-followed-by-an-abrupt-end");
+                        bag.add(&sig.clone(), || Violation { signature: sig.clone(), summary: format!("the client wrote {size} bytes (write result {:?}), all of them were delivered, then the transport ended without a TLS close; the server read {} of them before it saw {end}", wrote.as_ref().map_err(|e| e.kind()), got.len()), replay: json!({"part": "payload", "kind": k, "abrupt_end_after": size}) });
+                    }
+                }
+            }
+        }
+    }
     rep.set("payload_runs", payload_runs);
     bag.drain_into(&mut rep);
     let total = cases.len() as u64 + conc_seqs + payload_runs;
